@@ -475,3 +475,161 @@ def call_passes_as(call, callee, expr_text):
         if kw.arg and N.txt(kw.value) == expr_text:
             return kw.arg
     return None
+
+
+# ---------------------------------------------------------------------------
+# E5: set-expression evaluator over Venn regions
+# ---------------------------------------------------------------------------
+
+class SetExpr(object):
+    """Evaluates a set-valued expression of a function to a boolean function
+    over base sets.
+
+    ``bases`` maps a name to a recogniser ``fn(expr) -> bool`` telling that
+    an (unresolved) expression denotes that base set.  ``subset`` lists
+    (a, b) pairs meaning a is a subset of b (used to skip impossible
+    regions).  Local names are resolved through their unique assignment in
+    the function.  Returns None when the expression is not understood.
+    """
+
+    def __init__(self, func, bases, subset=()):
+        self.func = func
+        self.bases = bases
+        self.names = sorted(bases)
+        self.subset = list(subset)
+        self.defs = {}
+        counts = {}
+        for sub in walk_no_nested(func.node):
+            if isinstance(sub, ast.Assign) and len(sub.targets) == 1 and \
+                    isinstance(sub.targets[0], ast.Name):
+                name = sub.targets[0].id
+                counts[name] = counts.get(name, 0) + 1
+                self.defs[name] = sub.value
+        self.defs = {k: v for k, v in self.defs.items() if counts[k] == 1}
+
+    def regions(self):
+        import itertools
+        out = []
+        for bits in itertools.product([False, True],
+                                      repeat=len(self.names)):
+            env = dict(zip(self.names, bits))
+            if any(env.get(a) and not env.get(b) for a, b in self.subset):
+                continue
+            if not any(bits):
+                continue
+            out.append(env)
+        return out
+
+    def member(self, expr, env, depth=0):
+        """Is an element with base memberships ``env`` in the set denoted
+        by expr?  None if unknown."""
+        if depth > 10:
+            return None
+        for name, recog in self.bases.items():
+            try:
+                if recog(expr):
+                    return env[name]
+            except Exception:  # pylint: disable=broad-except
+                pass
+        if isinstance(expr, ast.Name) and expr.id in self.defs:
+            return self.member(self.defs[expr.id], env, depth + 1)
+        if isinstance(expr, ast.BinOp):
+            left = self.member(expr.left, env, depth + 1)
+            right = self.member(expr.right, env, depth + 1)
+            if left is None or right is None:
+                return None
+            if isinstance(expr.op, ast.Sub):
+                return left and not right
+            if isinstance(expr.op, ast.BitAnd):
+                return left and right
+            if isinstance(expr.op, ast.BitOr):
+                return left or right
+            if isinstance(expr.op, ast.BitXor):
+                return left != right
+            return None
+        if isinstance(expr, ast.Call):
+            name = callee_text(expr)
+            short = name.split('.')[-1]
+            if short in ('set', 'frozenset', 'list', 'sorted', 'tuple',
+                         'viewkeys', 'iterkeys', 'keys') and \
+                    len(expr.args) == 1:
+                return self.member(expr.args[0], env, depth + 1)
+            if isinstance(expr.func, ast.Attribute):
+                meth = expr.func.attr
+                if meth == 'keys' and not expr.args:
+                    return self.member(expr.func.value, env, depth + 1)
+                base = self.member(expr.func.value, env, depth + 1)
+                if meth in ('difference', 'intersection', 'union',
+                            'symmetric_difference') and expr.args:
+                    if base is None:
+                        return None
+                    cur = base
+                    for arg in expr.args:
+                        other = self.member(arg, env, depth + 1)
+                        if other is None:
+                            return None
+                        if meth == 'difference':
+                            cur = cur and not other
+                        elif meth == 'intersection':
+                            cur = cur and other
+                        elif meth == 'union':
+                            cur = cur or other
+                        else:
+                            cur = cur != other
+                    return cur
+            return None
+        if isinstance(expr, (ast.SetComp, ast.ListComp, ast.GeneratorExp)):
+            if len(expr.generators) != 1:
+                return None
+            gen = expr.generators[0]
+            if N.txt(expr.elt) != N.txt(gen.target):
+                return None
+            base = self.member(gen.iter, env, depth + 1)
+            if base is None:
+                return None
+            cur = base
+            for cond in gen.ifs:
+                val = self._cond(cond, N.txt(gen.target), env, depth)
+                if val is None:
+                    return None
+                cur = cur and val
+            return cur
+        return None
+
+    def _cond(self, cond, var, env, depth):
+        if isinstance(cond, ast.UnaryOp) and isinstance(cond.op, ast.Not):
+            val = self._cond(cond.operand, var, env, depth)
+            return None if val is None else not val
+        if isinstance(cond, ast.Compare) and len(cond.ops) == 1 and \
+                isinstance(cond.ops[0], (ast.In, ast.NotIn)) and \
+                N.txt(cond.left) == var:
+            val = self.member(cond.comparators[0], env, depth + 1)
+            if val is None:
+                return None
+            return val if isinstance(cond.ops[0], ast.In) else not val
+        return None
+
+    def table(self, expr):
+        """{frozenset(true base names): membership}; None if not
+        understood."""
+        out = {}
+        for env in self.regions():
+            val = self.member(expr, env)
+            if val is None:
+                return None
+            out[frozenset(k for k, v in env.items() if v)] = bool(val)
+        return out
+
+    def expect(self, fn):
+        out = {}
+        for env in self.regions():
+            out[frozenset(k for k, v in env.items() if v)] = bool(fn(env))
+        return out
+
+
+def show_table(table):
+    if table is None:
+        return 'not a recognised set expression'
+    return ', '.join('{%s}' % '&'.join(sorted(k)) for k, v in
+                     sorted(table.items(), key=lambda kv: sorted(kv[0]))
+                     if v) or 'empty'
